@@ -430,11 +430,17 @@ func main() {
 					if wi == 0 && lim == 0 && fwd && !cfg.thorough {
 						continue
 					}
+					// quick tier: window/limit/direction variants only for queries of at most one stage (the clauses
+					// they exercise are attached independently of the pipeline; the small databases cover limits per shape)
+					if !cfg.thorough && len(qu.Stages) > 1 && !(wi == 0 && lim == 0 && !fwd) {
+						continue
+					}
 					cases = append(cases, caseSpec{Query: qu, Text: text, DB: uni.Name, Params: Params{Start: w[0], End: w[1], Limit: lim, Forward: fwd}})
 				}
 			}
 		}
-		if cfg.thorough {
+		if cfg.thorough || len(qu.Stages) <= 1 {
+			// cluster mode: inlined WITHs, GLOBAL joins, distributed table names
 			cases = append(cases, caseSpec{Query: qu, Text: text, DB: uni.Name, Params: Params{Start: start, End: end}, Cluster: true})
 		}
 	}
@@ -569,6 +575,7 @@ func main() {
 		classes[c] = map[string]any{"cases": n, "first": classExample[c]}
 	}
 	r.Extra["disagreement_classes"] = classes
+	r.Extra["observations_outside_the_statement"] = observations(start, end)
 	r.States = int64(len(pairs))
 	r.Transitions = r.Evaluations
 	r.TracesValidated = executed
@@ -606,4 +613,44 @@ func classesOf(o outcome) []string {
 		return o.explained
 	}
 	return []string{o.class}
+}
+
+
+// observations runs a few probes about semantics the statement leaves open (they decide nothing): which of two
+// plausible rules the generated SQL follows.
+func observations(start, end int64) map[string]string {
+	d := &Database{Name: "observations", Streams: []Stream{
+		{Labels: map[string]string{"a": "x"}, Type: 1, FP: 11},
+		{Labels: map[string]string{"a": "xx"}, Type: 1, FP: 12},
+	}}
+	d.Entries = []Entry{
+		{Stream: 0, TS: start + 10, Line: `k=x k=y`},
+		{Stream: 0, TS: start + 20, Line: `{"k":"1"}`},
+		{Stream: 1, TS: start + 30, Line: `plain`},
+	}
+	d.build()
+	out := map[string]string{}
+	run := func(text string) []Row {
+		sqlText, perr, herr := renderSQL(text, Params{Start: start, End: end}, false)
+		if perr != nil || herr != nil {
+			return nil
+		}
+		rows, err := runSQL(d.ch, sqlText)
+		if err != nil {
+			return nil
+		}
+		return rows
+	}
+	find := func(rows []Row, line string) string {
+		for _, r := range rows {
+			if r.Line == line {
+				return r.Labels
+			}
+		}
+		return "<line not returned>"
+	}
+	out[`regexp stage with several matches in one line: {a="x"} | regexp "k=(?P<p>\\w)" on "k=x k=y" (Loki: first match)`] = find(run(`{a="x"} | regexp "k=(?P<p>\\w)"`), `k=x k=y`)
+	out[`extracted label with the name of a stored label: {a="x"} | json a="k" on {"k":"1"} (Loki: a_extracted)`] = find(run(`{a="x"} | json a="k"`), `{"k":"1"}`)
+	out[`regex matcher anchoring: {a=~"x"} on streams a="x" and a="xx" (Loki anchors: only a="x")`] = fmt.Sprintf("%d lines returned (3 = unanchored search, 2 = anchored)", len(run(`{a=~"x"}`)))
+	return out
 }
